@@ -83,7 +83,10 @@ Proof. exact integrate_eq_merge. Qed.
    Confirmed on the implementation: known finding `panic|txn|call|scoped|increment`. *)
 Theorem C29_scoped_increment_expose_refuted :
   exists c ins c' us,
-    NoDup (map si_pos ins) /\ (forall i, In i ins -> wf_ins c i) /    add_succ_with_undo c ins = Ok (c', us) /    nth_error (c_top c') 0 = Some true /\ nth_error (c_vis c') 0 = Some false /    reset_top (c_vis c') (c_top c') 0 2 = Panic.
+    NoDup (map si_pos ins) /\ (forall i, In i ins -> wf_ins c i) /\
+    add_succ_with_undo c ins = Ok (c', us) /\
+    nth_error (c_top c') 0 = Some true /\ nth_error (c_vis c') 0 = Some false /\
+    reset_top (c_vis c') (c_top c') 0 2 = Panic.
 Proof. exact add_succ_exposes_invisible_refuted. Qed.
 
 (* non-vacuity: actor [2] made two changes; a transaction isolated at the FIRST one (not the
